@@ -262,6 +262,12 @@ func (s *Translator) buildUnboundDirectionlessTraversalPatternRoot(traversalStep
 func (s *Translator) buildSingleBoundDirectionlessTraversalRoot(traversalStep *TraversalStep) (pgsql.Query, error) {
 	previousFrame, hasPreviousFrame := s.previousValidFrame(traversalStep.Frame)
 
+	// A self-loop on a node that no earlier frame exports, e.g. (u)-[]-(u), marks the endpoint visited second
+	// as bound although nothing materializes it yet - with or without an earlier frame.
+	if isUnboundSelfLoop(traversalStep) {
+		return s.buildSelfReferentialDirectionlessTraversalRoot(traversalStep)
+	}
+
 	// If left node is bound and there is no previous frame, this is a bug in the bounds generation
 	if traversalStep.LeftNodeBound && !hasPreviousFrame {
 		return pgsql.Query{}, fmt.Errorf("left node is marked as bound but there is no previous frame to reference")
@@ -335,7 +341,7 @@ func (s *Translator) buildSingleBoundDirectionlessTraversalRoot(traversalStep *T
 func (s *Translator) buildSelfReferentialDirectionlessTraversalRoot(traversalStep *TraversalStep) (pgsql.Query, error) {
 	var (
 		// Partition node constraints
-		_, rightJoinExternal = partitionConstraintByLocality(
+		rightJoinLocal, rightJoinExternal = partitionConstraintByLocality(
 			traversalStep.RightNodeConstraints,
 			pgsql.AsIdentifierSet(traversalStep.RightNode.Identifier, traversalStep.Edge.Identifier),
 		)
@@ -351,9 +357,17 @@ func (s *Translator) buildSelfReferentialDirectionlessTraversalRoot(traversalSte
 	)
 
 	// Self-referential pattern: the right node reuses the left node's variable (e.g. (u)-[]-(u)).
-	// There is no previous frame to promote as a FROM source. Join only the left node table and
-	// push the right-node join condition into WHERE so that start_id and end_id both reference
-	// the same node.
+	// No previous frame materializes the node, so there is no frame to promote as the JOIN root. Join
+	// only the left node table and push the right-node join condition into WHERE so that start_id and
+	// end_id both reference the same node. An earlier frame, if valid, is comma-joined.
+	if previousFrame, hasPrevious := s.previousFrameTraversalSource(traversalStep); hasPrevious {
+		nextSelect.From = append(nextSelect.From, pgsql.FromClause{
+			Source: pgsql.TableReference{
+				Name: pgsql.CompoundIdentifier{previousFrame.Binding.Identifier},
+			},
+		})
+	}
+
 	nextSelect.From = append(nextSelect.From, pgsql.FromClause{
 		Source: pgsql.TableReference{
 			Name:    pgsql.CompoundIdentifier{pgsql.TableEdge},
@@ -377,6 +391,10 @@ func (s *Translator) buildSelfReferentialDirectionlessTraversalRoot(traversalSte
 	nextSelect.Where = pgsql.OptionalAnd(leftJoinExternal, nextSelect.Where)
 	nextSelect.Where = pgsql.OptionalAnd(traversalStep.EdgeConstraints.Expression, nextSelect.Where)
 	nextSelect.Where = pgsql.OptionalAnd(rightJoinExternal, nextSelect.Where)
+
+	// With an earlier frame the node counts as bound when it is visited the second time, and its kind and
+	// property constraints arrive as right node constraints. Their local part is not joined anywhere else.
+	nextSelect.Where = pgsql.OptionalAnd(rightJoinLocal, nextSelect.Where)
 
 	return pgsql.Query{
 		Body: nextSelect,
@@ -407,6 +425,12 @@ func (s *Translator) buildDirectionlessTraversalPatternRootWithOuterCorrelation(
 
 func (s *Translator) buildSingleBoundDirectionlessTraversalRootWithOuterCorrelation(traversalStep *TraversalStep) (pgsql.Query, error) {
 	previousFrame, hasPreviousFrame := s.previousValidFrame(traversalStep.Frame)
+
+	// A self-loop on a node that no earlier frame exports, e.g. (u)-[]-(u), marks the endpoint visited second
+	// as bound although nothing materializes it yet - with or without an earlier frame.
+	if isUnboundSelfLoop(traversalStep) {
+		return s.buildSelfReferentialDirectionlessTraversalRoot(traversalStep)
+	}
 
 	// If left node is bound and there is no previous frame, this is a bug in the bounds generation
 	if traversalStep.LeftNodeBound && !hasPreviousFrame {
